@@ -110,3 +110,63 @@ func generateMultiMix(e *emitter, o vh.Opts) {
 		}
 	}
 }
+
+// Round 7, family "multi-first": multi notifications newer than the latest
+// timestamp (5000) whose FIRST update is a metadata leaf / an empty index path /
+// a refused unit (collision) / an accepted new leaf, followed by 1..2 further
+// units (accepted new leaf, metadata leaf, refused), optionally with a delete
+// that removes a leaf (a/b), removes nothing (z/z) or is the only other unit;
+// then UpdateMetadata.  The code decides on the first update whether the
+// notification is tracked, and on the UPDATE units alone (deletes never
+// count, and never return an error) whether it is accepted.
+func multiFirstCase(first string, rest []string, del string, T int64, edOn bool) *Case {
+	c := &Case{Family: "multi-first", Targets: []string{"t"}, Cfg: CfgJ{EventDriven: edOn}}
+	c.Ops = append(c.Ops,
+		Op{K: "upd", Now: 10, N: updN(100, pfx("t", "a"), pth("b"), ival(1))},
+		Op{K: "upd", Now: 11, N: updN(5000, pfx("t", "a"), pth("c"), ival(1))},
+		Op{K: "updatemeta", Now: 12})
+	n := &NotiJ{TS: T, Prefix: &PathJ{Target: "t"}}
+	fresh := 0
+	unit := func(kind string) UpdJ {
+		fresh++
+		switch kind {
+		case "meta":
+			return UpdJ{Path: pth("meta", []string{"vx", "vy", "vz"}[fresh%3]), Val: ival(int64(fresh))}
+		case "empty":
+			return UpdJ{Path: &PathJ{}, Val: ival(9)}
+		case "collision":
+			return UpdJ{Path: pth("a", "c", "x"), Val: ival(9)}
+		default: // "new": always accepted
+			return UpdJ{Path: pth("n", []string{"p", "q", "r"}[fresh%3], []string{"x", "y", "z"}[fresh%3]), Val: ival(int64(fresh))}
+		}
+	}
+	n.Upd = append(n.Upd, unit(first))
+	for _, k := range rest {
+		n.Upd = append(n.Upd, unit(k))
+	}
+	switch del {
+	case "hit":
+		n.Del = append(n.Del, *pth("a", "b"))
+	case "miss":
+		n.Del = append(n.Del, *pth("z", "z"))
+	}
+	c.Ops = append(c.Ops, Op{K: "upd", Now: 20, N: n}, Op{K: "updatemeta", Now: 21})
+	return c
+}
+
+func generateMultiFirst(e *emitter, o vh.Opts) {
+	firsts := []string{"meta", "empty", "collision", "new"}
+	rests := [][]string{{}, {"new"}, {"meta"}, {"collision"}, {"new", "meta"}, {"collision", "new"}, {"meta", "collision"}}
+	for _, f := range firsts {
+		for _, r := range rests {
+			for _, d := range []string{"", "hit", "miss"} {
+				if len(r) == 0 && d == "" {
+					continue // a single update: not a multi notification
+				}
+				for _, ed := range []bool{true, false} {
+					e.add(multiFirstCase(f, r, d, 6000, ed))
+				}
+			}
+		}
+	}
+}
